@@ -86,8 +86,8 @@ EffectW(c, s, w) ==
       [] w.k \in {"PPrune", "PRollback"} -> [s EXCEPT !.pv = Drop(@, ToSet(w.del))]
       [] w.k = "PHead"     -> [s EXCEPT !.phead = BlkById(c, w.id)]
       [] w.k = "DelPHead"  -> [s EXCEPT !.phead = NoBlock]
-      [] w.k = "SnapImport" -> IF w.set = <<>> THEN s ELSE [s EXCEPT !.xsv = Put(Empty, w.set[1], w.root)]
-      [] w.k = "DropOld" /\ w.tree = "S" /\ Has(s.xsv, w.pfx) -> [s EXCEPT !.xsv = Empty]    \* import target cleared
+      [] w.k = "SnapImport" -> [s EXCEPT !.xsv = Put(Empty, w.set[1], w.root)]
+      [] w.k = "SnapImport" /\ w.set = <<>> -> [s EXCEPT !.xsv = Put(Empty, 0, "partial")]   \* importer flushed without the root
       [] w.k = "Switch"    -> [s EXCEPT !.sv = s.xsv, !.iv = s.pv, !.xsv = Empty, !.pv = Empty, !.pp = FALSE,
                                         !.head = BlkById(c, w.id), !.phead = NoBlock]
       [] OTHER             -> s
@@ -201,9 +201,11 @@ TCrash == /\ Ev("Crash")
                        ELSE IF e.ph = "op" THEN win
                        ELSE [lo |-> win.lo, hi |-> IF ctx.end > win.hi THEN ctx.end ELSE win.hi]
              /\ clean' = IF e.clean THEN clean ELSE NoObs
-          /\ mn' = Down(st)
+          \* the process died inside the snapshot import: the clearing of the import target in front of it was complete
+          /\ st' = IF Trace[l].lost = "SnapImport" /\ pend # <<>> /\ pend[Len(pend)] = "DropOld" THEN [st EXCEPT !.xsv = Empty] ELSE st
+          /\ mn' = Down(st')
           /\ ph' = "rec" /\ pend' = <<>> /\ plan' = <<>> /\ apps' = <<>> /\ ci' = ci + 1
-          /\ UNCHANGED <<ctx, st, bad>>
+          /\ UNCHANGED <<ctx, bad>>
 
 SameObservables(a, b) == /\ a.head = b.head /\ a.dhead = b.dhead /\ a.lives = b.lives /\ a.livei = b.livei
                          /\ a.svr = b.svr /\ a.ivr = b.ivr /\ a.canon = b.canon /\ a.ns = b.ns /\ a.ni = b.ni
